@@ -21,10 +21,10 @@ confirm)
   grep -E "^test result" "$out/suite_with.log"
   mv /tmp/seeded_demo_$$.rs tests/seeded_demo.rs
   echo "== demo WITHOUT change (must pass)"
-  git stash push -q -- src
+  git diff -- src > "$wt/.confirm.patch"; git checkout -q -- src
   cargo test --offline $FEAT --test seeded_demo >"$out/demo_without.log" 2>&1; without=$?
   grep -E "^test result" "$out/demo_without.log"
-  git stash pop -q
+  git apply "$wt/.confirm.patch"; rm -f "$wt/.confirm.patch"
   echo "with=$with suite=$suite without=$without"
   if [ $with -ne 0 ] && [ $suite -eq 0 ] && [ $without -eq 0 ]; then echo CONFIRMED; else echo NOT-CONFIRMED; fi
   ;;
